@@ -436,6 +436,35 @@ def geometry_field(rng):
     return f
 
 
+def square_field(rng):
+    """A field whose data have two axes of the same size (so that swapping them is silent as far as shapes go), a third
+    one of another size, and possibly an unused size-1 axis; dimension coordinates, a 2-d auxiliary coordinate over
+    the two equal axes, a cell method."""
+    C = cfdm()
+    n = rng.choice([2, 3])
+    m = rng.choice([k for k in (1, 2, 3, 4) if k != n])
+    sizes = [n, n, m]
+    rng.shuffle(sizes)
+    if rng.random() < 0.4:
+        sizes = sizes[:2] if sizes[0] == sizes[1] else [n, n]
+    f = C.Field(properties={"standard_name": "air_temperature", "units": "K"})
+    axes = [f.set_construct(C.DomainAxis(s)) for s in sizes]
+    if rng.random() < 0.5:
+        f.set_construct(C.DomainAxis(1))
+    f.set_data(C.Data(np.arange(float(np.prod(sizes))).reshape(sizes), "K"), axes=axes)
+    for i, (a, s) in enumerate(zip(axes, sizes)):
+        if rng.random() < 0.8:
+            d = C.DimensionCoordinate(properties={"long_name": f"axis {i}", "units": "m"}, data=C.Data(np.arange(float(s)) + i, "m"))
+            f.set_construct(d, axes=[a])
+    eq = [a for a, s in zip(axes, sizes) if s == n]
+    if len(eq) >= 2 and rng.random() < 0.7:
+        aux = C.AuxiliaryCoordinate(properties={"long_name": "aux 2d"}, data=C.Data(np.arange(float(n * n)).reshape(n, n)))
+        f.set_construct(aux, axes=eq[:2])
+    if rng.random() < 0.5:
+        f.set_construct(C.CellMethod(axes=[axes[0]], method="mean"))
+    return f
+
+
 def first_subarray(arr, which=0):
     """A Subarray object exactly as the array's own __getitem__ builds it (None when the class has none)."""
     try:
@@ -670,6 +699,8 @@ def all_components(r):
         return comps
     if src == "geof":
         return components(geometry_field(rng))
+    if src == "sq":
+        return components(square_field(rng))
     if src == "sub":
         c = subsampled_coordinate(rng)
         comps = [("AuxiliaryCoordinate", c), ("Data", c.data), (type(c.data.source()).__name__, c.data.source())]
